@@ -174,3 +174,51 @@ def eos_shell1(phi1, n):
                    {'r.ri_eos.phi1': phi1, 'r.ri_eos.n': n})
     it.call('reb_integrator_eos_drift_shell0', ['@r', Poly.dt()])
     return it
+
+
+# ---------------------------------------------------------------- canonical operator words
+def main_track(scheme, trace, groups=('drift', 'kick', 'jump', 'encounter', 'corrector')):
+    """[(group, (Poly args...))] of the non-commuting operators in execution order."""
+    g = SCHEMES[scheme].groups
+    out = []
+    for nm, args in trace:
+        for gn in groups:
+            if gn in g and nm in g[gn] and args:
+                out.append((gn, tuple(args)))
+    return out
+
+
+def reduce_word(word, tol=Fraction(1, 10**14)):
+    """Free reduction: adjacent applications of the same one-parameter operator add; zero applications vanish
+    (exp(aX)exp(bX) = exp((a+b)X) is the only relation used). Cancellations may expose new adjacent pairs."""
+    out = []
+    for g, args in word:
+        cur = (g, tuple(args))
+        while True:
+            if all(is_zero(a_, tol) for a_ in cur[1]):
+                cur = None
+                break
+            if out and out[-1][0] == cur[0] and len(out[-1][1]) == len(cur[1]):
+                prev = out.pop()
+                cur = (cur[0], tuple(x + y for x, y in zip(prev[1], cur[1])))
+                continue
+            break
+        if cur is not None:
+            out.append(cur)
+    return out
+
+
+def words_equal(a, b, tol=Fraction(1, 10**14)):
+    if len(a) != len(b):
+        return False
+    for (g1, a1), (g2, a2) in zip(a, b):
+        if g1 != g2 or len(a1) != len(a2):
+            return False
+        if not all(is_zero(x - y, tol) for x, y in zip(a1, a2)):
+            return False
+    return True
+
+
+def word_str(w, limit=12):
+    s = ['%s(%s)' % (g, ', '.join(str(a) for a in args)) for g, args in w[:limit]]
+    return ' '.join(s) + (' ... [%d operators]' % len(w) if len(w) > limit else '')
